@@ -137,6 +137,8 @@ structure Pod where
   daemon : Bool
   ns : String := "default"
   volumes : List Volume := []
+  /-- the pod's controller: the ReplicaSet of this name in the pod's namespace ("" = none) -/
+  owner : String := ""
 deriving Repr
 
 structure Node where
@@ -187,6 +189,20 @@ structure PVC where
   storageClass : String
 deriving Repr
 
+/-- a Service: `selector = none` selects nothing, `some []` every pod of its namespace -/
+structure Service where
+  name : String
+  ns : String
+  selector : Option Labels
+deriving Repr
+
+/-- a ReplicaSet (only its selector matters) -/
+structure ReplicaSet where
+  name : String
+  ns : String
+  selector : LabelSel
+deriving Repr
+
 structure Scenario where
   its : List IT
   pools : List Pool
@@ -201,6 +217,12 @@ structure Scenario where
   storageClasses : List StorageClass := []
   pvs : List PV := []
   pvcs : List PVC := []
+  /-- API faults injected during the pass: the `n`-th List of a kind fails once -/
+  listFaults : List (String × Nat) := []
+  /-- cluster-level default topology spread constraints (`--scheduler-config`; their selector fields stay empty) -/
+  defaultSpreads : List Spread := []
+  services : List Service := []
+  replicaSets : List ReplicaSet := []
 deriving Repr
 
 /-! ### Outcome of a pass -/
